@@ -376,7 +376,12 @@ def definitely_different(x, y):
 
 _REDUCTION_FAMILY = {"numpy.sum": "sum", ".sum": "sum", "numpy.mean": "mean", ".mean": "mean", "numpy.average": "mean", "numpy.max": "max", ".max": "max",
                      "numpy.min": "min", ".min": "min", "numpy.prod": "product", ".prod": "product", "numpy.median": "median", "numpy.std": "std", ".std": "std",
-                     "numpy.var": "var", ".var": "var"}
+                     "numpy.var": "var", ".var": "var",
+                     # element-wise functions: different functions of the same operand are different quantities
+                     "numpy.abs": "abs", "numpy.absolute": "abs", "builtins.abs": "abs", "numpy.angle": "angle", "numpy.real": "real", "numpy.imag": "imag",
+                     "numpy.conj": "conj", "numpy.conjugate": "conj", ".conj": "conj", "numpy.sin": "sin", "numpy.cos": "cos", "numpy.tan": "tan", "numpy.exp": "exp",
+                     "numpy.log": "log", "numpy.sqrt": "sqrt", "numpy.square": "square", "numpy.arccos": "arccos", "numpy.arcsin": "arcsin", "numpy.floor": "floor",
+                     "numpy.ceil": "ceil", "numpy.rint": "rint", "numpy.argmax": "argmax", "numpy.argmin": "argmin", ".argmax": "argmax", ".argmin": "argmin"}
 
 
 def term_definite_difference(a, b, depth=0):
